@@ -16,10 +16,13 @@ def hexs(s):
 
 
 def arec(name, rtype, variant, ttl, flush=0):
+    # variants 3.. are addresses of one family that a tolerant comparison identifies with one of the other family:
+    # 127.0.0.1 / ::1, 0.0.0.0 / ::, 10.0.0.1 / ::ffff:10.0.0.1 / ::10.0.0.1 - they are different addresses
     if rtype == 1:
-        a = "4:%d" % (0x0A000001 + variant)
+        a = "4:%d" % ([0x0A000001, 0x0A000002, 0x0A000003, 0x7F000001, 0, 0x0A000001][variant])
     elif rtype == 28:
-        a = "6:" + "fe80" + "00" * 13 + "%02x" % (1 + variant)
+        a = "6:" + (["fe80" + "00" * 13 + "01", "fe80" + "00" * 13 + "02", "fe80" + "00" * 13 + "03",
+                     "00" * 15 + "01", "00" * 16, "00" * 10 + "ffff0a000001", "00" * 12 + "0a000001"][variant])
     else:
         a = "n"
     at = "6b=76" if rtype == 16 else "_"
@@ -30,7 +33,8 @@ def rand_rec(rng):
     name = rng.choice([HOST, HOST, HOST, "other.local.", "H.local.", "x" + HOST])
     rtype = rng.choice([1, 1, 28, 28, 16])
     ttl = rng.choice([0, 0, 1, 2, 120, 120, 4500])
-    return arec(name, rtype, rng.randrange(3), ttl, 1 if rng.random() < 0.25 else 0)
+    variant = rng.randrange(3) if rng.random() < 0.7 else rng.randrange(3, 6 if rtype == 1 else 7)
+    return arec(name, rtype, variant, ttl, 1 if rng.random() < 0.25 else 0)
 
 
 def gen(rng, nops):
